@@ -185,8 +185,48 @@ def bezier_files():
     return {"Bezier": U}
 
 
+def rdd2_files():
+    from cyecca.models import rdd2, rdd2_loglinear, mr_ref_traj, bezier
+    U = []
+
+    def every(mod, fname):
+        def get(k):
+            return lambda: getattr(mod, fname)()[k]
+        return get
+    for fname, keys in [("derive_control_allocation", ["f_alloc"]), ("derive_input_acro", None), ("derive_input_velocity", None),
+                        ("derive_input_auto_level", None), ("derive_attitude_control", None), ("derive_attitude_rate_control", None),
+                        ("derive_position_control", None), ("derive_common", None), ("derive_strapdown_ins_propagation", None),
+                        ("derive_attitude_estimator", None)]:
+        try:
+            d = getattr(rdd2, fname)()
+        except Exception as e:
+            U.append(("rdd2." + fname, (lambda e=e: (_ for _ in ()).throw(e))))
+            continue
+        for k, f in d.items():
+            U.append(("rdd2." + f.name(), (lambda f=f: f)))
+    files = {"Rdd2": U}
+    V = []
+    for fname in ["derive_se23_error", "derive_so3_attitude_control", "derive_outerloop_control"]:
+        try:
+            d = getattr(rdd2_loglinear, fname)()
+        except Exception as e:
+            V.append(("ll." + fname, (lambda e=e: (_ for _ in ()).throw(e))))
+            continue
+        for k, f in d.items():
+            V.append(("ll." + f.name(), (lambda f=f: f)))
+    files["Loglinear"] = V
+    W = []
+    for nm, mk in [("mr_ref_traj", lambda: mr_ref_traj.derive_mr_ref_traj()["mr_ref_traj"]),
+                   ("f_ref", lambda: bezier.derive_ref()["f_ref"]),
+                   ("eulerB321_to_quat", lambda: bezier.derive_eulerB321_to_quat()["eulerB321_to_quat"]),
+                   ("dcm_to_quat", lambda: bezier.derive_dcm_to_quat()["dcm_to_quat"])]:
+        W.append((nm, mk))
+    files["Ref"] = W
+    return files
+
+
 def all_files():
     files = {}
-    for part in (lie_files, series_files, quadrotor_files, bezier_files):
+    for part in (lie_files, series_files, quadrotor_files, bezier_files, rdd2_files):
         files.update(part())
     return files
